@@ -46,13 +46,28 @@ pub fn operand_values() -> Vec<i64> {
 /// un-truncated results in a virtual column and a 64-bit output column with the reference.
 /// `vals[k]` is the valuation in force when row k is evaluated.
 fn batch(st: &mut Stats, order: u64, exprs: &[Expr], vals: &[[i64; 4]], what: &str) {
+    batch_with(st, order, exprs, vals, what, &[])
+}
+
+/// `extra`: further 64-bit outputs (name, constant device value), each with a header column
+fn batch_with(st: &mut Stats, order: u64, exprs: &[Expr], vals: &[[i64; 4]], what: &str, extra: &[(String, i64)]) {
     assert_eq!(exprs.len(), vals.len());
-    let sigs = sigs();
+    let mut sigs = sigs();
+    sigs.extend(extra.iter().map(|(n, _)| Sig::out(n, 64)));
+    let answer = |v: &[i64; 4]| -> Answer {
+        let mut a = answer(v);
+        a.extend(extra.iter().map(|(n, x)| (n.clone(), V::Num(*x))));
+        a
+    };
     let mut body = vec![Stmt::Declare("V".into(), lit(0))];
     for e in exprs {
-        body.push(Stmt::Row(vec![Entry::Lit(0, Radix::Dec), Entry::Paren(e.clone()), Entry::Paren(e.clone())]));
+        let mut es = vec![Entry::Lit(0, Radix::Dec), Entry::Paren(e.clone()), Entry::Paren(e.clone())];
+        es.extend(extra.iter().map(|_| Entry::X));
+        body.push(Stmt::Row(es));
     }
-    let prog = Program { header: vec!["A".into(), "V".into(), "O".into()], body };
+    let mut header: Vec<String> = vec!["A".into(), "V".into(), "O".into()];
+    header.extend(extra.iter().map(|(n, _)| n.clone()));
+    let prog = Program { header, body };
     let text = text(&prog);
     // call k answers the valuation for row k (the constructor is call 0)
     let mut script: Vec<Step> = vals.iter().map(|v| Step::Ans(answer(v))).collect();
@@ -304,7 +319,7 @@ pub fn run(tier: Tier, seed: u64) -> i32 {
             toks.extend(t);
             operands.push(e);
             if j < 399 {
-                let op = [BinOp::Add, BinOp::Mul, BinOp::Xor, BinOp::Sub, BinOp::And, BinOp::Or, BinOp::Shl][j * 7 % 7 + 0].clone();
+                let op = [BinOp::Add, BinOp::Mul, BinOp::Xor, BinOp::Sub, BinOp::And, BinOp::Or, BinOp::Shl][j % 7];
                 let op = if j % 11 == 0 { BinOp::Lt } else { op };
                 toks.push(op.text().into());
                 ops.push(op);
@@ -321,11 +336,98 @@ pub fn run(tier: Tier, seed: u64) -> i32 {
             un_run = un(UNOPS[j % 3], un_run);
         }
         exprs.push(un_run);
+        // long runs within one precedence level (100 operands, the level's operators in turn, and
+        // in turn with a stride of three): left-associative whatever the length
+        for level in [vec![BinOp::Add, BinOp::Sub], vec![BinOp::Sub, BinOp::Add], vec![BinOp::Mul, BinOp::Div, BinOp::Rem], vec![BinOp::Shl, BinOp::Shr], vec![BinOp::Lt, BinOp::Ge, BinOp::Gt, BinOp::Le], vec![BinOp::Eq, BinOp::Ne]] {
+            for stride in [1usize, 3] {
+                for len in [63usize, 64, 65, 100] {
+                    let mut toks: Vec<String> = vec![];
+                    let mut operands = vec![];
+                    let mut ops = vec![];
+                    for j in 0..len {
+                        let (t, e) = operand(j % 4, &[]);
+                        toks.extend(t);
+                        operands.push(e);
+                        if j + 1 < len {
+                            let op = level[(j / stride) % level.len()];
+                            toks.push(op.text().into());
+                            ops.push(op);
+                        }
+                    }
+                    exprs.push(Expr::Raw(toks, Box::new(climb(operands, ops))));
+                }
+            }
+        }
         let v = vals[2];
         exprs.retain(|e| ok_under(e, &v));
         total.witness_n("very_long_expression", exprs.len() as u64);
         let vv = vec![v; exprs.len()];
         batch(&mut total, 6 << 32, &exprs, &vv, "large scale: very long / deeply nested expressions");
+    }
+
+    // far beyond the enumerated scope: 12 000 rows that cannot be evaluated (the failing division sits
+    // below 0 / 1 / 40 operators), the caller carries on, then expressions evaluate as ever
+    {
+        let sigs = sigs();
+        let mut deep = bin(BinOp::Div, lit(1), lit(0));
+        for j in 0..40 {
+            deep = group(bin(if j % 2 == 0 { BinOp::Add } else { BinOp::Mul }, lit(1), deep));
+        }
+        let fail_rows = vec![
+            Stmt::Row(vec![Entry::Lit(0, Radix::Dec), Entry::Paren(bin(BinOp::Div, lit(1), lit(0))), Entry::X]),
+            Stmt::Row(vec![Entry::Lit(0, Radix::Dec), Entry::Paren(bin(BinOp::Sub, lit(0), bin(BinOp::Rem, lit(1), lit(0)))), Entry::X]),
+            Stmt::Row(vec![Entry::Lit(0, Radix::Dec), Entry::Paren(deep), Entry::X]),
+        ];
+        let good = Stmt::Row(vec![Entry::Lit(0, Radix::Dec), Entry::Paren(bin(BinOp::Add, lit(1), bin(BinOp::Mul, name("p"), lit(2)))), Entry::Paren(un(UnOp::Neg, group(bin(BinOp::Sub, name("q"), lit(3)))))]);
+        let prog = Program { header: vec!["A".into(), "V".into(), "O".into()], body: vec![Stmt::Declare("V".into(), lit(0)), good.clone(), Stmt::Loop("i".into(), lit(4000), fail_rows), good] };
+        let text = text(&prog);
+        let script = vec![Step::Ans(answer(&[5, 7, 0, 0]))];
+        let mut env = ScriptEnv::new(&script);
+        env.repeat_last = true;
+        let r = crate::refsem::run_opts2(&prog, &sigs, &mut env, Fuel { steps: 200_000, rows: 100 }, false, true);
+        assert!(r.end == RefEnd::Done, "C08 harness: {:?}", r.end);
+        let mut opts = RunOpts::new(r.items.len() + 1);
+        opts.repeat_last = true;
+        opts.continue_after_error = true;
+        opts.budget = 200_000_000;
+        let obs = run_dynamic(&text, &sigs, true, &script, &opts);
+        total.evals += 1;
+        total.nontrivial += 1;
+        total.witness("expression_after_12000_rows_that_could_not_be_evaluated");
+        // only the two rows that can be evaluated are compared (what an iterator does after an
+        // error item is not laid down; if it yields rows at all, the last one must be right)
+        let proj = Proj { input_values: false, expected: true, output: false, checked_kind: true, lines: false, vars: false, verdicts: false };
+        let last_ref = r.items.last().unwrap();
+        let m = match obs.items.iter().rev().find(|i| **i != ObsItem::End) {
+            Some(oi @ ObsItem::Row(_)) if obs.items.len() >= r.items.len() => crate::compare::item_mismatch(last_ref, oi, proj, None, None),
+            Some(ObsItem::Row(_)) | None => None,
+            Some(other) if obs.items.len() >= r.items.len() && obs.items.iter().filter(|i| i.is_row()).count() >= 1 => Some(format!("item kind: expected {}, got {}", ref_brief(last_ref), other.brief())),
+            _ => None,
+        };
+        if let Some(m) = m {
+            total.violation(&format!("{} [large scale: after 12000 failing rows]", classify(&format!("item 0: {m}"))), 8 << 32, format!("{} rows that cannot be evaluated, then\n{}\nfirst difference at {m}", 12000, "0 ( 1 + p * 2 ) ( - ( q - 3 ) )"), || {
+                json!({"kind": "dynamic", "text": text, "signals": sigs_json(&sigs), "driver_overrides_write_input": true, "script": crate::driver::script_json(&script), "max_next": r.items.len() + 1, "after_end": 0, "continue_after_error": true, "seed": 1, "repeat_last": true, "extra_known": [], "expected": [ref_brief(last_ref)], "observed": obs_items_brief(&obs).into_iter().rev().take(3).collect::<Vec<_>>(), "mismatch": m})
+            });
+        }
+    }
+
+    // operands written without blanks next to their operator, where the header has signals whose
+    // names are spelt like that piece of text (any non-blank text is a signal name): `p-q` in an
+    // expression is p minus q
+    {
+        let extra: Vec<(String, i64)> = BINOPS.iter().enumerate().map(|(i, op)| (format!("p{}q", op.text()), 1000 + i as i64)).chain([("-p".to_string(), 2000), ("!q".to_string(), 2001), ("~p".to_string(), 2002), ("(p)".to_string(), 2003)]).collect();
+        let mut exprs: Vec<Expr> = BINOPS.iter().map(|op| Expr::Raw(vec![format!("p{}q", op.text())], Box::new(bin(*op, name("p"), name("q"))))).collect();
+        exprs.push(Expr::Raw(vec!["-p".into()], Box::new(un(UnOp::Neg, name("p")))));
+        exprs.push(Expr::Raw(vec!["!q".into()], Box::new(un(UnOp::Not, name("q")))));
+        exprs.push(Expr::Raw(vec!["~p".into()], Box::new(un(UnOp::Inv, name("p")))));
+        exprs.push(Expr::Raw(vec!["(p)".into()], Box::new(name("p"))));
+        exprs.push(Expr::Raw(vec!["2*p-q-p".into()], Box::new(bin(BinOp::Sub, bin(BinOp::Sub, bin(BinOp::Mul, lit(2), name("p")), name("q")), name("p")))));
+        for v in [vals[0], vals[3]] {
+            let ex: Vec<Expr> = exprs.iter().filter(|e| ok_under(e, &v)).cloned().collect();
+            total.witness_n("operands_glued_to_operators_next_to_signals_spelt_alike", ex.len() as u64);
+            let vv = vec![v; ex.len()];
+            batch_with(&mut total, 7 << 32, &ex, &vv, "tight spelling next to header signals spelt like the expression text", &extra);
+        }
     }
 
     // part 3: ite is lazy; part 4: literal radixes
@@ -388,7 +490,7 @@ pub fn run(tier: Tier, seed: u64) -> i32 {
             "reference evaluator refsem::binop/unop/climb is the oracle (i64 wrapping, shift count & 63, truncating division, MIN/-1 = MIN, MIN%-1 = 0)".into(),
             "valuations are a fixed set of 12 (4 for the unary-prefixed chains in the quick tier) chosen so that different trees give different values; values outside the boundary sets are not enumerated (DESIGN section 10)".into(),
         ],
-        required_witnesses: vec!["very_long_expression", "flat_chain", "unary_prefixed_operand", "explicit_tree", "operator_table_entry", "MIN_op_minus_one", "shift_count_outside_0_63", "ite_with_failing_or_drawing_unselected_branch", "literal_radix_form"],
+        required_witnesses: vec!["very_long_expression", "expression_after_12000_rows_that_could_not_be_evaluated", "operands_glued_to_operators_next_to_signals_spelt_alike", "flat_chain", "unary_prefixed_operand", "explicit_tree", "operator_table_entry", "MIN_op_minus_one", "shift_count_outside_0_63", "ite_with_failing_or_drawing_unselected_branch", "literal_radix_form"],
         exhaustive_note: "all operator triples, shapes, prefixes and operand pairs listed".into(),
         e1: false,
     };
